@@ -88,9 +88,13 @@ void exec_ro(const J& plan) {
   const bool tsan_mode = false; ak.backend = BE_ARENA;
 #endif
   sa_reset(ak);
-  Hist H;
+  Hist H; H.light = true;     // no read-only call may touch the tree before it is sealed: a lazily filled cache must still be empty then
   const J& ops = plan.at("ops");
-  for (size_t i = 0; i < ops.size() && !failed() && !g_run.foreign_seen; i++) { HOp o = hop_from_json(ops[i]); o.fk = F_NONE; H.run_op(o); }
+  for (size_t i = 0; i < ops.size() && !failed() && !g_run.foreign_seen; i++) {
+    HOp o = hop_from_json(ops[i]); o.fk = F_NONE;
+    switch (o.code) { case OP_SERIALIZE_ALLOC: case OP_SERIALIZE: case OP_SIZE: case OP_DESCRIBE: case OP_GETTERS: case OP_COPY: case OP_GET: case OP_TAG_ITEM: continue; default: break; }
+    H.run_op(o);
+  }
   if (failed() || g_run.foreign_seen) return;
   // every node reachable from a client handle whose tree may legally be traversed (no item-less tag)
   std::vector<const cbor_item_t*> nodes; std::set<const cbor_item_t*> seen;
@@ -133,6 +137,7 @@ void exec_ro(const J& plan) {
   stat_add("ro_calls", calls); stat_add("ro_nodes", nodes.size()); stat_max("max_ro_nodes", nodes.size());
   bool nt = nodes.size() >= 2 && calls >= 10;
   std::vector<uint64_t> order; for (int i = 0; i < 64; i++) order.push_back((uint64_t)i * 7);
+  H.light = false;
   if (!failed() && !g_run.foreign_seen) H.drop_all(order);
   g_run.nontrivial = nt;
 }
